@@ -26,6 +26,7 @@ func runC17(c *fw.Ctx) {
 	r171(c)
 	r172(c)
 	r173(c)
+	r174(c)
 }
 
 // frozen classification of assertions the automatic classes do not cover: key -> (class, reason)
@@ -511,4 +512,90 @@ func r173(c *fw.Ctx) {
 			return true
 		})
 	}
+}
+
+// R17.4: a recursive search that is cut off by a set of visited nodes terminates in time linear in the
+// graph only if the set grows monotonically. If entries are removed when the recursion unwinds, the set
+// degenerates into "nodes on the current path" and a chain of diamonds (T_i embeds A_i+1 and B_i+1, both
+// embed T_i+1) is explored 2^depth times. In every function of the builder that receives a visited set
+// (a parameter of type map[K]struct{}), nothing is deleted from it and it is only replaced when it is nil.
+func r174(c *fw.Ctx) {
+	const rule = "R17.4"
+	p := c.Pkg("")
+	info := p.TypesInfo
+	n := 0
+	for _, fd := range c.Decls() {
+		if c.PkgOfDecl(fd) != p || fd.Body == nil {
+			continue
+		}
+		var sets []types.Object
+		for _, f := range fd.Type.Params.List {
+			for _, nm := range f.Names {
+				o := info.Defs[nm]
+				if o == nil {
+					continue
+				}
+				if m, ok := o.Type().Underlying().(*types.Map); ok {
+					if st, ok := m.Elem().Underlying().(*types.Struct); ok && st.NumFields() == 0 {
+						sets = append(sets, o)
+					}
+				}
+			}
+		}
+		if len(sets) == 0 {
+			continue
+		}
+		fname := declName(c, fd)
+		for _, set := range sets {
+			n++
+			bad := ""
+			var badPos token.Pos
+			ast.Inspect(fd.Body, func(m ast.Node) bool {
+				switch x := m.(type) {
+				case *ast.CallExpr:
+					if id, ok := unparen(x.Fun).(*ast.Ident); ok && id.Name == "delete" && len(x.Args) == 2 {
+						if _, isB := info.Uses[id].(*types.Builtin); isB {
+							if a, ok := unparen(x.Args[0]).(*ast.Ident); ok && info.Uses[a] == set {
+								bad, badPos = "an entry is deleted from it", x.Pos()
+							}
+						}
+					}
+					if id, ok := unparen(x.Fun).(*ast.Ident); ok && id.Name == "clear" && len(x.Args) == 1 {
+						if a, ok := unparen(x.Args[0]).(*ast.Ident); ok && info.Uses[a] == set {
+							bad, badPos = "it is cleared", x.Pos()
+						}
+					}
+				case *ast.AssignStmt:
+					for _, l := range x.Lhs {
+						if a, ok := unparen(l).(*ast.Ident); ok && info.Uses[a] == set {
+							// allowed: inside `if set == nil { set = make(...) }`
+							guarded := false
+							ast.Inspect(fd.Body, func(k ast.Node) bool {
+								if is, ok := k.(*ast.IfStmt); ok && is.Body.Pos() <= x.Pos() && x.End() <= is.Body.End() {
+									if be, ok := unparen(is.Cond).(*ast.BinaryExpr); ok && be.Op == token.EQL {
+										if b, ok := unparen(be.X).(*ast.Ident); ok && info.Uses[b] == set {
+											if tv, ok := info.Types[be.Y]; ok && tv.IsNil() {
+												guarded = true
+											}
+										}
+									}
+								}
+								return true
+							})
+							if !guarded {
+								bad, badPos = "it is replaced while the search is running", x.Pos()
+							}
+						}
+					}
+				}
+				return true
+			})
+			if badPos == token.NoPos {
+				badPos = fd.Pos()
+			}
+			c.Check(bad == "", rule, fname+"/visited-set-only-grows("+set.Name()+")", badPos,
+				"the visited set %s must only grow during the search; here %s: the search revisits a struct once per embedding path (exponential in the depth of diamond-shaped embedding)", set.Name(), bad)
+		}
+	}
+	c.Floor(rule, "functions receiving a visited set", n, 2)
 }
